@@ -21,6 +21,7 @@ pub struct Index {
     pub first_lone_cr: Option<usize>,
     /// first char offset strictly after U+0085 / U+2028 / U+2029, if any
     pub first_legacy_break: Option<usize>,
+    #[allow(dead_code)]
     pub has_multibyte: bool,
     /// first char offset strictly after the first multi-byte character
     pub first_multibyte: Option<usize>,
